@@ -85,7 +85,7 @@ def helper_entry_state(eng, fb, f):
             continue
         for st in g.stmts.values():
             if st["k"] == "CXXMemberCallExpr" and (st.get("callee") or {}).get("id") == f.id and \
-                    path(g, g.s(st["obj"])) == "this":
+                    path(g, g.s(st["obj"])) in ("this", "*this"):
                 ncalls += 1
                 la = locks_of(eng, fb, g)
                 pos = g.pos_of(st)
@@ -253,7 +253,7 @@ def check_guarded_fields(ctx, rid, cls, only_fields=None, doc=None, only_functio
             base = path(f, f.s(st["base"]))
             site = f.loc(st)
             inst = f.qname
-            if base != "this":
+            if base not in ("this", "*this"):
                 # field of another object of the same class: not used today
                 ctx.ob(rid, False, site, "%s.%s accessed on an object other than this" % (cls, name),
                        "base path %s is not analysed" % base, fn=top.label, inst=inst)
@@ -357,10 +357,10 @@ def check_guarded_fields(ctx, rid, cls, only_fields=None, doc=None, only_functio
                 pos = f.pos_of(st)
                 obj = path(f, f.s(st.get("obj"))) if st.get("obj") else None
                 for g, m in sorted(needs):
-                    ok = obj == "this" and pos is not None and la.holds(pos, g, m)
+                    ok = obj in ("this", "*this") and pos is not None and la.holds(pos, g, m)
                     if not ok and top.id == hid:
                         continue
-                    if not ok and top.access == "private" and top.id != hid and obj == "this":
+                    if not ok and top.access == "private" and top.id != hid and obj in ("this", "*this"):
                         # propagate one more level
                         requires_up = [(g, m, f.loc(st), "", top, f.qname)]
                         ok2 = _callers_hold(ctx, cls, top, g, m)
